@@ -7,6 +7,8 @@
                + Sym==Num for the traces
   oracle     : exhaustive differential run over the table below (entry x 5 forms x lengths 0..8 x int/float)
 """
+import contextlib
+import io
 import math
 import numpy as np
 import sympy
@@ -19,12 +21,14 @@ import spatialmath.base as base  # noqa: E402
 from spatialmath import SO2, SE2, SO3, SE3, Quaternion, UnitQuaternion, Twist3, Twist2  # noqa: E402
 
 MOD = 'Traces_C15'
+_SINK = io.StringIO()      # the library prints notices (e.g. Twist3.exp in degree mode); keep them out of the check's output
 FORMS5 = ('list', 'tuple', 'nd1', 'row', 'col')
 FORMS3 = ('list', 'tuple', 'nd1')
 LENGTHS = range(0, 9)
 
 INT_VALS = [3, -1, 2, 5, -4, 1, 7, -2]
 FLT_VALS = [0.5, -0.25, 0.75, 1.5, -2.25, 0.125, 3.5, -0.625]
+ZERO_VALS = [0.0] * 8                                      # the zero vector: shortcuts for zero arguments must not skip the conversion
 UNIT_VALS = [1.0, 0.0, 0.0, 0.0, 0.0, 0.0, 0.0, 0.0]     # unit norm at every length: a length-blind norm predicate says True
 
 
@@ -81,11 +85,29 @@ def canon(r):
 
 def outcome(fn, *a, **k):
     try:
-        with np.errstate(all='ignore'):
+        with np.errstate(all='ignore'), contextlib.redirect_stdout(_SINK):
             r = fn(*a, **k)
     except Exception as ex:
         return ('raise', type(ex).__name__)
     return canon(r)
+
+
+def typetag(r):
+    """coarse result type: a form must not change the TYPE of the result either (list in, list out where nd1 gives an ndarray)"""
+    if isinstance(r, (bool, np.bool_)):
+        return 'bool'
+    if isinstance(r, (int, float, np.integer, np.floating)):
+        return 'scalar'
+    return type(r).__name__
+
+
+def outcome_t(fn, *a, **k):
+    try:
+        with np.errstate(all='ignore'), contextlib.redirect_stdout(_SINK):
+            r = fn(*a, **k)
+    except Exception as ex:
+        return ('raise', type(ex).__name__), 'raise'
+    return canon(r), typetag(r)
 
 
 def show(o):
@@ -106,11 +128,12 @@ def show(o):
 # the table: which parameter of which public entry point is the vector, and the lengths it accepts
 
 class E:
-    def __init__(self, name, fn, dims, forms=FORMS5, wrong='raise', note='', returns_none=False):
+    def __init__(self, name, fn, dims, forms=FORMS5, wrong='raise', note='', returns_none=False, container_free=False):
         """fn(v) calls the library with v as the vector argument and valid values for the others;
         dims: set of accepted lengths, or None (any length);
         wrong: what a wrong length must give: 'raise' (exception) or 'false' (a predicate: False or exception)"""
         self.name, self.fn, self.dims, self.forms, self.wrong, self.note, self.returns_none = name, fn, dims, forms, wrong, note, returns_none
+        self.container_free = container_free       # documented to hand back the container type it was given
 
 
 Q1 = np.array([0.5, -0.5, 0.5, 0.5])
@@ -120,8 +143,43 @@ R3 = base.rotx(0.3) @ base.roty(-0.2)
 R2 = base.rot2(0.3)
 
 
-def table():
+class Params:
+    """values of the arguments that are NOT the vector under test; `used` records which ones a call read"""
+    GENERIC = dict(Q1=Q1, Q2=Q2, V3=V3, R3=R3, R2=R2, TH=0.3, S=0.3, SHORT=False, POW=3, SQ=0.5)
+
+    def __init__(self):
+        object.__setattr__(self, 'vals', dict(self.GENERIC))
+        object.__setattr__(self, 'used', set())
+
+    def __getattr__(self, k):
+        self.used.add(k)
+        return self.vals[k]
+
+    def set(self, **kw):
+        self.vals.clear()
+        self.vals.update(self.GENERIC)
+        self.vals.update(kw)
+
+
+# special values of the other arguments: one parameter at a time away from the generic setting
+E1 = np.array([1.0, 0.0, 0.0])
+QID = np.array([1.0, 0.0, 0.0, 0.0])
+VARIANTS = [
+    ('S=0', dict(S=0)), ('S=1', dict(S=1)), ('S=0.0', dict(S=0.0)), ('S=1.0', dict(S=1.0)), ('S=tiny', dict(S=1e-12)), ('S=1-tiny', dict(S=1 - 1e-12)),
+    ('S=0,shortest', dict(S=0, SHORT=True)), ('S=1,shortest', dict(S=1, SHORT=True)), ('S=mid,shortest', dict(SHORT=True)),
+    ('TH=0', dict(TH=0)), ('TH=0.0', dict(TH=0.0)), ('TH=pi', dict(TH=math.pi)), ('TH=-pi/2', dict(TH=-math.pi / 2)), ('TH=tiny', dict(TH=1e-12)),
+    ('POW=0', dict(POW=0)), ('POW=1', dict(POW=1)), ('POW=-2', dict(POW=-2)),
+    ('SQ=0', dict(SQ=0)), ('SQ=1', dict(SQ=1)),
+    ('Q1=identity', dict(Q1=QID)), ('Q2=identity', dict(Q2=QID)), ('Q1=Q2', dict(Q1=Q2)), ('Q2=-Q1', dict(Q2=-Q1)), ('Q1=zero', dict(Q1=np.zeros(4))), ('Q2=zero', dict(Q2=np.zeros(4))),
+    ('V3=zero', dict(V3=np.zeros(3))), ('V3=e1', dict(V3=E1)),
+    ('R3=identity', dict(R3=np.eye(3))), ('R2=identity', dict(R2=np.eye(2))),
+]
+
+
+def table(P=None):
+    """P: the values of the OTHER arguments (Params); read at call time, so one table serves every variant"""
     b = base
+    P = P or Params()
     T = []
     add = lambda *a, **k: T.append(E(*a, **k))
     # ---- argcheck
@@ -134,7 +192,7 @@ def table():
     for d in (1, 2, 3, 4, 6):
         add('isvector:dim', (lambda d: lambda v: b.isvector(v, d))(d), {d}, wrong='false')
     add('assertvector', lambda v: b.assertvector(v, 3), {3}, returns_none=True)
-    add('getunit:deg', lambda v: b.getunit(v, 'deg'), None, forms=FORMS3, note='shape-preserving, not a vector normaliser')
+    add('getunit:deg', lambda v: b.getunit(v, 'deg'), None, forms=FORMS3, container_free=True, note='shape-preserving: list in, list out (documented)')
     # ---- vectors
     add('colvec', lambda v: b.colvec(v), None)
     add('unitvec', lambda v: b.unitvec(v), None, returns_none=True, note='None for a zero-norm vector is documented')
@@ -142,127 +200,127 @@ def table():
     add('normsq', lambda v: b.normsq(v), None)
     add('isunitvec', lambda v: b.isunitvec(v), None)
     add('iszerovec', lambda v: b.iszerovec(v), None)
-    add('cross:u', lambda v: b.cross(v, V3), {3})
-    add('cross:v', lambda v: b.cross(V3, v), {3})
+    add('cross:u', lambda v: b.cross(v, P.V3), {3})
+    add('cross:v', lambda v: b.cross(P.V3, v), {3})
     add('isunittwist', lambda v: b.isunittwist(v), {6})
     add('isunittwist2', lambda v: b.isunittwist2(v), {3})
-    add('unittwist', lambda v: b.unittwist(v), {6})
+    add('unittwist', lambda v: b.unittwist(v), {6}, returns_none=True, note='None for the zero twist is documented')
     add('unittwist_norm', lambda v: b.unittwist_norm(v), {6})
     add('unittwist2', lambda v: b.unittwist2(v), {3})
     add('removesmall', lambda v: b.removesmall(v), None, forms=('nd1',), note='elementwise on arrays only (documented ndarray)')
     # ---- transformsNd
-    add('rt2tr:t3', lambda v: b.rt2tr(R3, v), {3})
-    add('rt2tr:t2', lambda v: b.rt2tr(R2, v), {2})
-    add('Ab2M:b3', lambda v: b.Ab2M(R3, v), {3})
-    add('Ab2M:b2', lambda v: b.Ab2M(R2, v), {2})
+    add('rt2tr:t3', lambda v: b.rt2tr(P.R3, v), {3})
+    add('rt2tr:t2', lambda v: b.rt2tr(P.R2, v), {2})
+    add('Ab2M:b3', lambda v: b.Ab2M(P.R3, v), {3})
+    add('Ab2M:b2', lambda v: b.Ab2M(P.R2, v), {2})
     add('skew', lambda v: b.skew(v), {1, 3})
     add('skewa', lambda v: b.skewa(v), {3, 6})
     add('rodrigues', lambda v: b.rodrigues(v), {1, 3})
-    add('rodrigues:theta', lambda v: b.rodrigues(v, 0.3), {1, 3})
+    add('rodrigues:theta', lambda v: b.rodrigues(v, P.TH), {1, 3})
     add('h2e', lambda v: b.h2e(v), None, forms=FORMS3, note='a 2-D array is a set of points (documented)')
     add('e2h', lambda v: b.e2h(v), None, forms=FORMS3, note='a 2-D array is a set of points (documented)')
-    add('homtrans:p3', lambda v: b.homtrans(b.trotx(0.3, t=[1, 2, 3]), v), {3}, forms=FORMS3, note='2-D array = set of points')
-    add('homtrans:p2', lambda v: b.homtrans(b.trot2(0.3, t=[1, 2]), v), {2}, forms=FORMS3, note='2-D array = set of points')
+    add('homtrans:p3', lambda v: b.homtrans(b.trotx(P.TH, t=[1, 2, 3]), v), {3}, forms=FORMS3, note='2-D array = set of points')
+    add('homtrans:p2', lambda v: b.homtrans(b.trot2(P.TH, t=[1, 2]), v), {2}, forms=FORMS3, note='2-D array = set of points')
     # ---- quaternions
     add('pure', lambda v: b.pure(v), {3})
     add('qnorm', lambda v: b.qnorm(v), {4})
     add('unit', lambda v: b.unit(v), {4})
     add('isunit', lambda v: b.isunit(v), {4}, wrong='false')
-    add('isequal:q1', lambda v: b.isequal(v, Q2), {4})
-    add('isequal:q2', lambda v: b.isequal(Q2, v), {4})
+    add('isequal:q1', lambda v: b.isequal(v, P.Q2), {4})
+    add('isequal:q2', lambda v: b.isequal(P.Q2, v), {4})
     add('q2v', lambda v: b.q2v(v), {4})
     add('v2q', lambda v: b.v2q(np.asarray(v) * 0.1 if isinstance(v, np.ndarray) else type(v)(x * 0.1 for x in v)), {3})
-    add('qqmul:q1', lambda v: b.qqmul(v, Q2), {4})
-    add('qqmul:q2', lambda v: b.qqmul(Q1, v), {4})
-    add('inner:q1', lambda v: b.inner(v, Q2), {4})
-    add('inner:q2', lambda v: b.inner(Q1, v), {4})
-    add('qvmul:q', lambda v: b.qvmul(v, V3), {4})
-    add('qvmul:v', lambda v: b.qvmul(Q1, v), {3})
-    add('vvmul:qa', lambda v: b.vvmul(np.asarray(v) * 0.1 if isinstance(v, np.ndarray) else type(v)(x * 0.1 for x in v), V3), {3})
-    add('vvmul:qb', lambda v: b.vvmul(V3, np.asarray(v) * 0.1 if isinstance(v, np.ndarray) else type(v)(x * 0.1 for x in v)), {3})
-    add('qpow', lambda v: b.qpow(v, 3), {4})
+    add('qqmul:q1', lambda v: b.qqmul(v, P.Q2), {4})
+    add('qqmul:q2', lambda v: b.qqmul(P.Q1, v), {4})
+    add('inner:q1', lambda v: b.inner(v, P.Q2), {4})
+    add('inner:q2', lambda v: b.inner(P.Q1, v), {4})
+    add('qvmul:q', lambda v: b.qvmul(v, P.V3), {4})
+    add('qvmul:v', lambda v: b.qvmul(P.Q1, v), {3})
+    add('vvmul:qa', lambda v: b.vvmul(np.asarray(v) * 0.1 if isinstance(v, np.ndarray) else type(v)(x * 0.1 for x in v), P.V3), {3})
+    add('vvmul:qb', lambda v: b.vvmul(P.V3, np.asarray(v) * 0.1 if isinstance(v, np.ndarray) else type(v)(x * 0.1 for x in v)), {3})
+    add('qpow', lambda v: b.qpow(v, P.POW), {4})
     add('conj', lambda v: b.conj(v), {4})
     add('q2r', lambda v: b.q2r(v), {4})
-    add('slerp:q0', lambda v: b.slerp(v, Q2, 0.3), {4})
-    add('slerp:q1', lambda v: b.slerp(Q1, v, 0.3), {4})
+    add('slerp:q0', lambda v: b.slerp(v, P.Q2, P.S, P.SHORT), {4})
+    add('slerp:q1', lambda v: b.slerp(P.Q1, v, P.S, P.SHORT), {4})
     add('matrix', lambda v: b.matrix(v), {4})
-    add('dot:q', lambda v: b.dot(v, V3), {4})
-    add('dot:w', lambda v: b.dot(Q1, v), {3})
-    add('dotb:q', lambda v: b.dotb(v, V3), {4})
-    add('dotb:w', lambda v: b.dotb(Q1, v), {3})
-    add('angle:q1', lambda v: b.angle(v, Q2), {4})
-    add('angle:q2', lambda v: b.angle(Q1, v), {4})
+    add('dot:q', lambda v: b.dot(v, P.V3), {4})
+    add('dot:w', lambda v: b.dot(P.Q1, v), {3})
+    add('dotb:q', lambda v: b.dotb(v, P.V3), {4})
+    add('dotb:w', lambda v: b.dotb(P.Q1, v), {3})
+    add('angle:q1', lambda v: b.angle(v, P.Q2), {4})
+    add('angle:q2', lambda v: b.angle(P.Q1, v), {4})
     add('qprint', lambda v: b.qprint(v, file=None), {4})
     # ---- transforms2d
-    add('trot2:t', lambda v: b.trot2(0.3, t=v), {2})
+    add('trot2:t', lambda v: b.trot2(P.TH, t=v), {2})
     add('transl2', lambda v: b.transl2(v), {2})
     add('xyt2tr', lambda v: b.xyt2tr(v), {3})
     add('trexp2', lambda v: b.trexp2(v), {1, 3})
     # ---- transforms3d
-    add('trotx:t', lambda v: b.trotx(0.3, t=v), {3})
-    add('troty:t', lambda v: b.troty(0.3, t=v), {3})
-    add('trotz:t', lambda v: b.trotz(0.3, t=v), {3})
+    add('trotx:t', lambda v: b.trotx(P.TH, t=v), {3})
+    add('troty:t', lambda v: b.troty(P.TH, t=v), {3})
+    add('trotz:t', lambda v: b.trotz(P.TH, t=v), {3})
     add('transl', lambda v: b.transl(v), {3})
     add('rpy2r', lambda v: b.rpy2r(v), {3})
     add('rpy2tr', lambda v: b.rpy2tr(v), {3})
     add('eul2r', lambda v: b.eul2r(v), {3})
     add('eul2tr', lambda v: b.eul2tr(v), {3})
-    add('angvec2r:v', lambda v: b.angvec2r(0.3, v), {3})
-    add('angvec2tr:v', lambda v: b.angvec2tr(0.3, v), {3})
-    add('oa2r:o', lambda v: b.oa2r(v, V3), {3})
-    add('oa2r:a', lambda v: b.oa2r(V3, v), {3})
-    add('oa2tr:o', lambda v: b.oa2tr(v, V3), {3})
-    add('oa2tr:a', lambda v: b.oa2tr(V3, v), {3})
+    add('angvec2r:v', lambda v: b.angvec2r(P.TH, v), {3})
+    add('angvec2tr:v', lambda v: b.angvec2tr(P.TH, v), {3})
+    add('oa2r:o', lambda v: b.oa2r(v, P.V3), {3})
+    add('oa2r:a', lambda v: b.oa2r(P.V3, v), {3})
+    add('oa2tr:o', lambda v: b.oa2tr(v, P.V3), {3})
+    add('oa2tr:a', lambda v: b.oa2tr(P.V3, v), {3})
     add('trexp', lambda v: b.trexp(v), {3, 6})
     add('delta2tr', lambda v: b.delta2tr(v), {6})
     # ---- classes: list, tuple, 1-D array
     c3 = dict(forms=FORMS3)
     add('SE3()', lambda v: SE3(v), {3}, **c3)
-    add('SE3.Rx:t', lambda v: SE3.Rx(0.3, t=v), {3}, **c3)
-    add('SE3.Ry:t', lambda v: SE3.Ry(0.3, t=v), {3}, **c3)
-    add('SE3.Rz:t', lambda v: SE3.Rz(0.3, t=v), {3}, **c3)
+    add('SE3.Rx:t', lambda v: SE3.Rx(P.TH, t=v), {3}, **c3)
+    add('SE3.Ry:t', lambda v: SE3.Ry(P.TH, t=v), {3}, **c3)
+    add('SE3.Rz:t', lambda v: SE3.Rz(P.TH, t=v), {3}, **c3)
     add('SE3.Eul', lambda v: SE3.Eul(v), {3}, **c3)
     add('SE3.RPY', lambda v: SE3.RPY(v), {3}, **c3)
-    add('SE3.OA:o', lambda v: SE3.OA(v, V3), {3}, **c3)
-    add('SE3.OA:a', lambda v: SE3.OA(V3, v), {3}, **c3)
-    add('SE3.AngVec:v', lambda v: SE3.AngVec(0.3, v), {3}, **c3)
+    add('SE3.OA:o', lambda v: SE3.OA(v, P.V3), {3}, **c3)
+    add('SE3.OA:a', lambda v: SE3.OA(P.V3, v), {3}, **c3)
+    add('SE3.AngVec:v', lambda v: SE3.AngVec(P.TH, v), {3}, **c3)
     add('SE3.EulerVec', lambda v: SE3.EulerVec(v), {3}, **c3)
     add('SE3.Exp', lambda v: SE3.Exp(v), {6}, **c3)
     # SE3.Delta is left to C13 (its constructor rejects its own delta2tr output for every form)
-    add('SE3*v', lambda v: SE3.Rx(0.3, t=[1, 2, 3]) * v, {3}, **c3)
+    add('SE3*v', lambda v: SE3.Rx(P.TH, t=[1, 2, 3]) * v, {3}, **c3)
     add('SO3.Eul', lambda v: SO3.Eul(v), {3}, **c3)
     add('SO3.RPY', lambda v: SO3.RPY(v), {3}, **c3)
-    add('SO3.OA:o', lambda v: SO3.OA(v, V3), {3}, **c3)
-    add('SO3.OA:a', lambda v: SO3.OA(V3, v), {3}, **c3)
-    add('SO3.AngVec:v', lambda v: SO3.AngVec(0.3, v), {3}, **c3)
+    add('SO3.OA:o', lambda v: SO3.OA(v, P.V3), {3}, **c3)
+    add('SO3.OA:a', lambda v: SO3.OA(P.V3, v), {3}, **c3)
+    add('SO3.AngVec:v', lambda v: SO3.AngVec(P.TH, v), {3}, **c3)
     add('SO3.EulerVec', lambda v: SO3.EulerVec(v), {3}, **c3)
     add('SO3.Exp', lambda v: SO3.Exp(v), {3}, **c3)
-    add('SO3*v', lambda v: SO3.Rx(0.3) * v, {3}, **c3)
+    add('SO3*v', lambda v: SO3.Rx(P.TH) * v, {3}, **c3)
     add('SE2()', lambda v: SE2(v), {2, 3}, **c3)
     add('SE2.Exp', lambda v: SE2.Exp(v), {3}, **c3)
-    add('SE2*v', lambda v: SE2(1, 2, 0.3) * v, {2}, **c3)
-    add('SO2*v', lambda v: SO2(0.3) * v, {2}, **c3)
+    add('SE2*v', lambda v: SE2(1, 2, P.TH) * v, {2}, **c3)
+    add('SO2*v', lambda v: SO2(P.TH) * v, {2}, **c3)
     add('Quaternion()', lambda v: Quaternion(v), {4}, **c3)
-    add('Quaternion(s,v)', lambda v: Quaternion(0.5, v), {3}, **c3)
+    add('Quaternion(s,v)', lambda v: Quaternion(P.SQ, v), {3}, **c3)
     add('Quaternion.Pure', lambda v: Quaternion.Pure(v), {3}, **c3)
     add('UnitQuaternion()', lambda v: UnitQuaternion(v), {4}, **c3)
-    add('UnitQuaternion(s,v)', lambda v: UnitQuaternion(0.5, v), {3}, **c3)
+    add('UnitQuaternion(s,v)', lambda v: UnitQuaternion(P.SQ, v), {3}, **c3)
     add('UnitQuaternion.Eul', lambda v: UnitQuaternion.Eul(v), {3}, **c3)
     add('UnitQuaternion.RPY', lambda v: UnitQuaternion.RPY(v), {3}, **c3)
-    add('UnitQuaternion.OA:o', lambda v: UnitQuaternion.OA(v, V3), {3}, **c3)
-    add('UnitQuaternion.OA:a', lambda v: UnitQuaternion.OA(V3, v), {3}, **c3)
-    add('UnitQuaternion.AngVec:v', lambda v: UnitQuaternion.AngVec(0.3, v), {3}, **c3)
+    add('UnitQuaternion.OA:o', lambda v: UnitQuaternion.OA(v, P.V3), {3}, **c3)
+    add('UnitQuaternion.OA:a', lambda v: UnitQuaternion.OA(P.V3, v), {3}, **c3)
+    add('UnitQuaternion.AngVec:v', lambda v: UnitQuaternion.AngVec(P.TH, v), {3}, **c3)
     add('UnitQuaternion.EulerVec', lambda v: UnitQuaternion.EulerVec(v), {3}, **c3)
     add('UnitQuaternion.Vec3', lambda v: UnitQuaternion.Vec3(np.asarray(v) * 0.1 if isinstance(v, np.ndarray) else type(v)(x * 0.1 for x in v)), {3}, **c3)
-    add('UnitQuaternion*v', lambda v: UnitQuaternion.Rx(0.3) * v, {3}, **c3)
+    add('UnitQuaternion*v', lambda v: UnitQuaternion.Rx(P.TH) * v, {3}, **c3)
     add('Twist3()', lambda v: Twist3(v), {6}, **c3)
-    add('Twist3(v,w):v', lambda v: Twist3(v, V3), {3}, **c3)
-    add('Twist3(v,w):w', lambda v: Twist3(V3, v), {3}, **c3)
-    add('Twist3.Revolute:a', lambda v: Twist3.Revolute(v, V3), {3}, **c3)
-    add('Twist3.Revolute:q', lambda v: Twist3.Revolute(V3, v), {3}, **c3)
+    add('Twist3(v,w):v', lambda v: Twist3(v, P.V3), {3}, **c3)
+    add('Twist3(v,w):w', lambda v: Twist3(P.V3, v), {3}, **c3)
+    add('Twist3.Revolute:a', lambda v: Twist3.Revolute(v, P.V3), {3}, **c3)
+    add('Twist3.Revolute:q', lambda v: Twist3.Revolute(P.V3, v), {3}, **c3)
     add('Twist3.Prismatic', lambda v: Twist3.Prismatic(v), {3}, **c3)
-    add('Twist3.Ry:t', lambda v: Twist3.Ry(0.3, t=v), {3}, **c3)
-    add('Twist3.Rz:t', lambda v: Twist3.Rz(0.3, t=v), {3}, **c3)
+    add('Twist3.Ry:t', lambda v: Twist3.Ry(P.TH, t=v), {3}, **c3)
+    add('Twist3.Rz:t', lambda v: Twist3.Rz(P.TH, t=v), {3}, **c3)
     add('Twist2()', lambda v: Twist2(v), {3}, **c3)
     add('Twist2.Revolute', lambda v: Twist2.Revolute(v), {2}, **c3)
     add('Twist2.Prismatic', lambda v: Twist2.Prismatic(v), {2}, **c3)
@@ -277,17 +335,31 @@ def diff_run(ctx, entries=None, report=None):
     """the exhaustive differential run; report(key, what, replay) defaults to ctx.fail.
     Keys name the root-cause site: entry x (form | form group x length class) x outcome kind."""
     report = report or ctx.fail
-    ents = entries or table()
+    P = Params()
+    ents = entries or table(P)
     nrand = ctx.n(6, 60)
-    for e in ents:
-        valsets = [('int', INT_VALS), ('float', FLT_VALS), ('float', UNIT_VALS)]
-        for k in range(nrand):
+    # the generic setting of the other arguments, then every special value of each of them (only the entries that read it)
+    for vlabel, vkw in [('', {})] + VARIANTS:
+      P.set(**vkw)
+      for e0 in ents:
+        if vlabel:
+            P.used.clear()
+            probe = [0.1, 0.2, -0.3, 0.4, 0.25, -0.15, 0.05, 0.35][:(min(e0.dims) if e0.dims else 3)]
+            outcome(e0.fn, mkform(probe, 'nd1', 'float'))
+            if not (set(vkw) & P.used):
+                continue
+            ctx.count('table:variant-entries')
+        e = e0 if not vlabel else E(e0.name + '@' + vlabel, e0.fn, e0.dims, e0.forms, e0.wrong, e0.note, e0.returns_none, e0.container_free)
+        e.special = bool(vlabel)
+        valsets = [('int', INT_VALS), ('float', FLT_VALS), ('float', UNIT_VALS), ('float', ZERO_VALS)]
+        for k in range(nrand if not vlabel else 1):
             valsets.append(('float', [float(x) for x in np.round(ctx.rng.uniform(-2, 2, size=8), 3)]))
         for kind, allvals in valsets:
             for n in LENGTHS:
                 vals = allvals[:n]
                 valid = (e.dims is None and n > 0) or (e.dims is not None and n in e.dims)
-                outs = {form: outcome(e.fn, mkform(vals, form, kind)) for form in e.forms}
+                outs_t = {form: outcome_t(e.fn, mkform(vals, form, kind)) for form in e.forms}
+                outs = {f: x[0] for f, x in outs_t.items()}
                 ref = outs['nd1']
                 lenclass = 'empty' if n == 0 else 'any' if e.dims is None else \
                     'short' if n < min(e.dims) else 'long' if n > max(e.dims) else 'between'
@@ -308,11 +380,16 @@ def diff_run(ctx, entries=None, report=None):
                                 report(f"form:{e.name}:nd1:raises",
                                        f"{e.name}: the 1-D array form of a correct-length ({n}) vector {show(o)} but the "
                                        f"{others[0]} form gives {show(outs[others[0]])}", rep)
-                            elif o[0] == 'raise' and e.dims is not None:
+                            elif o[0] == 'raise' and e.dims is not None and not e.special and sum(abs(x) for x in vals) > 0:
                                 report(f"table:{e.name}:valid-length-rejected",
                                        f"{e.name}: every form of a correct-length ({n}) vector raises ({show(o)})", rep)
                             continue
-                        if o == ref or ref[0] == 'raise':
+                        if ref[0] == 'raise':
+                            continue
+                        if o == ref:
+                            if outs_t[form][1] != outs_t['nd1'][1] and not e.container_free:
+                                report(f"form:{e.name}:{form}:type-differs",
+                                       f"{e.name}: {form} form of a length-{n} vector gives a {outs_t[form][1]} but the 1-D array form a {outs_t['nd1'][1]} (same values)", rep)
                             continue
                         report(f"form:{e.name}:{form}:{'raises' if o[0] == 'raise' else 'differs'}",
                                f"{e.name}: {form} form of a length-{n} vector {show(o)} but the 1-D array form {show(ref)}", rep)
@@ -349,6 +426,12 @@ BAD_ORDERS = ['zyz', 'xzy', 'ZYX', 'Vehicle', '', 'zyx ', 'rpy', None, 3]
 BAD_UNITS = ['degrees', 'Deg', 'DEG', 'radians', 'grad', '', 'deg ', None, 1]
 
 
+# twists of every kind: the unit handling must not depend on which kind a receiver (or one of its elements) is
+TW3_KINDS = [('screw', np.array([1, 2, 3, 0.2, -0.3, 0.4])), ('revolute', np.array([0.5, -0.8, -0.1, 0.2, 0.4, 0.6])),
+             ('prismatic', np.array([1.0, 2.0, 3.0, 0, 0, 0])), ('zero', np.zeros(6))]
+TW2_KINDS = [('revolute', np.array([1, 2, 0.5])), ('prismatic', np.array([1.0, 2.0, 0])), ('zero', np.zeros(3))]
+
+
 def angle_in_entries():
     """(name, f(angle_or_angles, unit), arity) : entry points taking INPUT angles with a unit keyword"""
     b = base
@@ -378,9 +461,11 @@ def angle_in_entries():
         ('Twist3.Rx', lambda a, u: Twist3.Rx([a], u), 1), ('Twist3.Ry', lambda a, u: Twist3.Ry([a], u), 1), ('Twist3.Rz', lambda a, u: Twist3.Rz([a], u), 1),
         ('Twist3.Rx:scalar', lambda a, u: Twist3.Rx(a, u), 1), ('Twist3.Ry:scalar', lambda a, u: Twist3.Ry(a, u), 1), ('Twist3.Rz:scalar', lambda a, u: Twist3.Rz(a, u), 1),
         ('Twist3.Ry:t', lambda a, u: Twist3.Ry(a, u, t=[1, 2, 3]), 1), ('Twist3.Rz:t', lambda a, u: Twist3.Rz(a, u, t=[1, 2, 3]), 1),
-        ('Twist3.exp', lambda a, u: Twist3([1, 2, 3, 0.2, -0.3, 0.4]).exp(a, u), 1),
-        ('Twist2.exp', lambda a, u: Twist2([1, 2, 0.5]).exp(a, u), 1),
     ]
+    for kn, tw in TW3_KINDS:
+        L.append((f'Twist3.exp@{kn}', (lambda tw: lambda a, u: Twist3(tw).exp(a, u))(tw), 1))
+    for kn, tw in TW2_KINDS:
+        L.append((f'Twist2.exp@{kn}', (lambda tw: lambda a, u: Twist2(tw).exp(a, u))(tw), 1))
     for o1, o2 in ORDERS:
         for o in (o1, o2):
             L += [(f'rpy2r:{o}', (lambda o: lambda a, u: b.rpy2r(a, unit=u, order=o))(o), 3),
@@ -595,7 +680,7 @@ def per_element(r, n, k=None, transposed=False):
 
 def call(f, *a, **k):
     try:
-        with np.errstate(all='ignore'):
+        with np.errstate(all='ignore'), contextlib.redirect_stdout(_SINK):
             return ('val', f(*a, **k))
     except Exception as ex:
         return ('raise', type(ex).__name__)
@@ -619,6 +704,20 @@ def multi_ctor_entries():
     tw3, tw2 = [1, 2, 3, 0.2, -0.3, 0.4], [1, 2, 0.5]
     L.append(('Twist3.exp', lambda A, c, u: Twist3(tw3).exp(c(A), u), lambda a: Twist3(tw3).exp(a), 1))
     L.append(('Twist2.exp', lambda A, c, u: Twist2(tw2).exp(c(A), u), lambda a: Twist2(tw2).exp(a), 1))
+    for off in range(4):
+        def tws3(n, off=off):
+            return [TW3_KINDS[(off + i) % 4][1] for i in range(n)]
+        s3 = (lambda tws3: lambda a, i, n: Twist3(tws3(n)[i]).exp(a))(tws3)
+        s3.indexed = True
+        L.append((f'Twist3[mixed kinds+{off}].exp:list', (lambda tws3: lambda A, c, u: Twist3(tws3(len(A))).exp(c(A), u))(tws3), s3, 1))
+        L.append((f'Twist3[mixed kinds+{off}].exp:scalar', (lambda tws3: lambda A, c, u: Twist3(tws3(len(A))).exp(A[0], u))(tws3), s3, 1))
+    for off in range(3):
+        def tws2(n, off=off):
+            return [TW2_KINDS[(off + i) % 3][1] for i in range(n)]
+        s2 = (lambda tws2: lambda a, i, n: Twist2(tws2(n)[i]).exp(a))(tws2)
+        s2.indexed = True
+        L.append((f'Twist2[mixed kinds+{off}].exp:list', (lambda tws2: lambda A, c, u: Twist2(tws2(len(A))).exp(c(A), u))(tws2), s2, 1))
+        L.append((f'Twist2[mixed kinds+{off}].exp:scalar', (lambda tws2: lambda A, c, u: Twist2(tws2(len(A))).exp(A[0], u))(tws2), s2, 1))
     L.append(('Twist2[n].exp', lambda A, c, u: Twist2([np.array(tw2) * (i + 1) for i in range(len(A))]).exp(c(A), u), None, 1))
     L.append(('Twist3[n].exp', lambda A, c, u: Twist3([np.array(tw3) * (i + 1) for i in range(len(A))]).exp(c(A), u),
               None, 1))        # element i uses twist i: handled specially below
@@ -662,6 +761,18 @@ def make_receivers(rng, n):
             'UnitQuaternion': [UnitQuaternion(base.r2q(R)) for R in Rs],
             'SO2': [SO2(th) for th in ths],
             'SE2': [SE2(t[0], t[1], th) for t, th in zip(ts, ths)]}, {'R_hex': [[float(x).hex() for x in R.flatten()] for R in Rs], 'theta': ths}
+
+
+def special_receivers(n):
+    """receivers mixing the identity, a half turn, the RPY/Euler singular attitude and a generic rotation"""
+    Rs = [np.eye(3), base.rotx(math.pi), base.roty(math.pi / 2), base.rpy2r([0.3, -0.4, 0.5])][:n]
+    ths = [0.0, math.pi, -math.pi / 2, 0.7][:n]
+    ts = [[0.0, 0.0, 0.0], [1.0, -2.0, 0.5], [0.0, 3.0, 0.0], [-1.0, 0.25, 2.0]][:n]
+    return {'SO3': [SO3(R, check=False) for R in Rs],
+            'SE3': [SE3(base.rt2tr(R, t), check=False) for R, t in zip(Rs, ts)],
+            'UnitQuaternion': [UnitQuaternion(base.r2q(R)) for R in Rs],
+            'SO2': [SO2(th) for th in ths],
+            'SE2': [SE2(t[0], t[1], th) for t, th in zip(ts, ths)]}, {'R_hex': [[float(x).hex() for x in R.flatten()] for R in Rs], 'theta': ths, 'special': True}
 
 
 # every class method with a unit/units/order parameter must be exercised above (single- AND multi-valued); found by reflection
@@ -734,8 +845,10 @@ def multi_run(ctx, report=None):
                     ed, er = per_element(rd[1], n), per_element(rr[1], n)
                     if single is not None:
                         es = []
-                        for a in Arad:
-                            r1 = call(single, a)
+                        for i_, a in enumerate(Arad):
+                            if name.endswith(':scalar'):
+                                a = Arad[0]
+                            r1 = call(single, a, i_, n) if getattr(single, 'indexed', False) else call(single, a)
                             p1 = per_element(r1[1], 1) if r1[0] == 'val' else None
                             es.append(p1[0] if p1 else np.full(1, np.inf))
                     else:
@@ -779,7 +892,7 @@ def multi_run(ctx, report=None):
     # ---- returned angles, receivers holding n poses
     for n in (2, 3, 4):
         for rep in range(reps):
-            recv, desc = make_receivers(rng, n)
+            recv, desc = make_receivers(rng, n) if rep else special_receivers(n)
             for name, cn, acc, k in multi_acc_entries():
                 singles = recv[cn]
                 X = type(singles[0])([x.A if hasattr(x, 'A') else x for x in singles]) if cn != 'UnitQuaternion' else UnitQuaternion([q.vec for q in singles])
